@@ -34,6 +34,10 @@ pub struct Actor {
 
     put_senders: HashMap<Id, Vec<Sender<Result<Id, PutError>>>>,
     get_senders: HashMap<Id, Vec<ResponseSender>>,
+
+    /// Verification hook: what the last call of [Actor::tick] found done.
+    #[cfg(mainline_verif)]
+    verif_tick: VerifTick,
 }
 
 impl Actor {
@@ -71,6 +75,9 @@ impl Actor {
 
             put_senders: HashMap::new(),
             get_senders: HashMap::new(),
+
+            #[cfg(mainline_verif)]
+            verif_tick: VerifTick::default(),
         })
     }
 
@@ -124,6 +131,8 @@ impl Actor {
         }
 
         let mut done_put_queries = self.check_done_put_queries();
+        #[cfg(mainline_verif)]
+        let verif_checked_put_queries = done_put_queries.clone();
 
         for (_, query) in self.core.iterative_queries.iter_mut() {
             query.visit_closest(&mut self.socket);
@@ -132,6 +141,18 @@ impl Actor {
         let done_iterative_queries = self.check_done_iterative_queries();
 
         self.start_put_queries(&done_iterative_queries, &mut done_put_queries);
+
+        #[cfg(mainline_verif)]
+        {
+            self.verif_tick = VerifTick {
+                done_get: done_iterative_queries
+                    .iter()
+                    .map(|(id, nodes)| (*id, nodes.iter().any(|n| n.token().is_some())))
+                    .collect(),
+                checked_put: verif_checked_put_queries,
+                done_put: done_put_queries.clone(),
+            };
+        }
 
         let should_ping_alleged_new_address = self
             .core
@@ -522,8 +543,64 @@ pub struct VerifSnapshot {
     pub mode: (Option<SocketAddrV4>, bool, bool),
 }
 
+/// Verification hook: what one call of [Actor::tick] found done.
+#[cfg(mainline_verif)]
+#[derive(Debug, Clone, Default)]
+pub struct VerifTick {
+    /// lookups found done, and whether any of their closest nodes carries a token
+    pub done_get: Vec<(Id, bool)>,
+    /// puts found done by `check_done_put_queries`
+    pub checked_put: Vec<(Id, Option<PutError>)>,
+    /// puts done after `start_put_queries`
+    pub done_put: Vec<(Id, Option<PutError>)>,
+}
+
+/// Verification hook: the per-call bookkeeping of an [Actor].
+#[cfg(mainline_verif)]
+#[derive(Debug, Clone, Default)]
+pub struct VerifCalls {
+    /// targets of the active lookups
+    pub lookups: Vec<Id>,
+    /// active puts: target, started, (sig, seq, cas) of a mutable put
+    #[allow(clippy::type_complexity)]
+    pub puts: Vec<(Id, bool, Option<([u8; 64], i64, Option<i64>)>)>,
+    /// parked get callers per target
+    pub get_senders: Vec<(Id, usize)>,
+    /// parked put callers per target
+    pub put_senders: Vec<(Id, usize)>,
+}
+
 #[cfg(mainline_verif)]
 impl Actor {
+    /// Verification hook: what the last tick found done.
+    pub fn verif_tick(&self) -> VerifTick {
+        self.verif_tick.clone()
+    }
+
+    /// Verification hook: the per-call bookkeeping.
+    pub fn verif_calls(&self) -> VerifCalls {
+        VerifCalls {
+            lookups: self.core.iterative_queries.keys().copied().collect(),
+            puts: self
+                .core
+                .put_queries
+                .iter()
+                .map(|(id, q)| {
+                    (
+                        *id,
+                        q.started(),
+                        match &q.request {
+                            PutRequestSpecific::PutMutable(a) => Some((a.sig, a.seq, a.cas)),
+                            _ => None,
+                        },
+                    )
+                })
+                .collect(),
+            get_senders: self.get_senders.iter().map(|(id, v)| (*id, v.len())).collect(),
+            put_senders: self.put_senders.iter().map(|(id, v)| (*id, v.len())).collect(),
+        }
+    }
+
     /// Verification hook: snapshot of bookkeeping sizes and statistics.
     pub fn verif_snapshot(&self) -> VerifSnapshot {
         VerifSnapshot {
